@@ -1342,6 +1342,14 @@ BGP99_extrapolation_assign(const Pointset_Powerset& y,
   // `x' is the current iteration value.
   Pointset_Powerset& x = *this;
 
+  if (&y == &x) {
+    // `y' is `x' itself, which is reduced and collapsed below
+    // before `y' is read: work on a copy of the argument.
+    const Pointset_Powerset<PSET> y_copy(y);
+    x.BGP99_extrapolation_assign(y_copy, widen_fun, max_disjuncts);
+    return;
+  }
+
 #ifndef NDEBUG
   {
     // We assume that `y' entails `x'.
